@@ -58,8 +58,8 @@ def _update_case(job):
         scopes = ["default", "global", "branch"]
         cli_scope = idx % 5 in (0, 1)
         cfg_scope = scopes[(scopes.index(scope) + 1 + idx % 2) % 3] if cli_scope else scope
-        proj.write("bumpver.toml", project.bumpver_toml(cfgver, pat, [("README.md", ["{version}"]), ("src/pkg.txt", ['version = "{version}"'])],
-                                                        extra={"tag_scope": cfg_scope}))
+        proj.write(*project.config_file(["bumpver.toml", "bumpver.toml", "setup.cfg", "pyproject.toml"][idx % 4], cfgver, pat, [("README.md", ["{version}"]), ("src/pkg.txt", ['version = "{version}"'])],
+                                        extra={"tag_scope": cfg_scope}, variant=idx // 4))
         proj.write("README.md", "# demo\n\ncurrent release: %s (see notes)\n" % cfgver)
         proj.write("src/pkg.txt", 'name = "x"\nversion = "%s"\n' % cfgver)
         proj.write("unrelated.txt", "keep %s\n" % cfgver)
